@@ -29,6 +29,7 @@ type raDriver struct {
 	h      *icmp.Handler6
 	rng    *rand.Rand
 	shared bool
+	keep   bool // shared mode without scribbling: the next frame simply overwrites the previous one (a real receive loop)
 	rx     []byte
 	used   int
 }
@@ -139,7 +140,7 @@ func (d *raDriver) feed(b []byte) (errs []string, pan string) {
 			errs = append(errs, err.Error())
 		}
 	}
-	if d.shared { // the receive buffer is reused by the next packet
+	if d.shared && !d.keep { // the receive buffer is reused by the next packet
 		p := byte(d.rng.Intn(256))
 		full := d.rx[:cap(d.rx)]
 		for i := range full {
@@ -224,10 +225,11 @@ func raMain(args []string) {
 	vectors := fs.String("vectors", "", "ndjson vectors printed by TLC (spec/Ndp6RaVec.tla)")
 	outp := fs.String("out", "", "ndjson results")
 	shared := fs.Bool("shared", false, "deliver every frame in one shared receive buffer that is scribbled over after each step")
+	overwrite := fs.Bool("overwrite", false, "with -shared: do not scribble, the next frame simply overwrites the previous one")
 	framesOut := fs.String("frames", "", "write the generated RA frames (hex, one per line)")
 	fs.Parse(args)
 	stdout := quiet()
-	d := &raDriver{rng: rand.New(rand.NewSource(seed())), shared: *shared, rx: make([]byte, 0, 2048)}
+	d := &raDriver{rng: rand.New(rand.NewSource(seed())), shared: *shared, keep: *overwrite, rx: make([]byte, 0, 2048)}
 	of, err := os.Create(*outp)
 	if err != nil {
 		fmt.Fprintln(os.Stderr, err)
@@ -305,7 +307,13 @@ func raMain(args []string) {
 			return b
 		}
 		if first, ok := a["first"].(map[string]interface{}); ok && first["h"] != nil {
-			errs, pan := d.feed(build(first["h"].(map[string]interface{}), first["opts"].([]interface{})))
+			fb := build(first["h"].(map[string]interface{}), first["opts"].([]interface{}))
+			if perm, _ := a["perm"].(bool); perm {
+				// by construction the second advertisement has the same length and the same ICMPv6 checksum
+				sb := vh.FrameRA(smac, src, header(a["h"].(map[string]interface{})), encodeOpts(a["opts"].([]interface{}), d.rng))
+				res["perm_ok"] = len(fb) == len(sb) && fb[56] == sb[56] && fb[57] == sb[57] && string(fb) != string(sb)
+			}
+			errs, pan := d.feed(fb)
 			res["first_errs"] = errs
 			if pan != "" {
 				res["panic"] = pan
